@@ -102,7 +102,7 @@ func (r *RegistryImpl) CleanupStaleTransactions() {
 		}
 
 		// Check idle time
-		idleTime := now.Sub(txImpl.lastActiveTime)
+		idleTime := now.Sub(txImpl.lastActive())
 		if idleTime > r.idleTxTTL {
 			staleIDs = append(staleIDs, id)
 			continue
